@@ -2,6 +2,7 @@ package rules
 
 import (
 	"fmt"
+	"go/constant"
 	"go/token"
 	"go/types"
 	"sort"
@@ -93,8 +94,8 @@ func sentinelFor(v *spec.Version, l *facts.Level, kind string) []string {
 // armRules: names, wiring, parser, zero test per case arm (R4, R5, C09 wiring).
 func (e *Env) armRules(l *facts.Level, m *decodeOneModel) {
 	c := e.C
-	if m == nil || m.Fn == nil {
-		return
+	if m == nil || m.Fn == nil || m.Leaves == nil || m.Split == nil {
+		return // the per-token decoder was not modelled (reported as UNDECIDED where that happened)
 	}
 	who := fname(m.Fn)
 	got := m.armNames()
@@ -341,6 +342,9 @@ func (e *Env) sentinelProvenance() {
 			if fn.Pkg == nil || fn.Pkg.Pkg.Path() != load.ModPath+"/"+rel || fn.Synthetic != "" {
 				continue
 			}
+			if !e.reachableFromAPI()[fn] {
+				continue // errors of entry points the property does not speak of (a lenient wrapper, a marshaller)
+			}
 			sig := fn.Signature
 			ei := -1
 			for i := 0; i < sig.Results().Len(); i++ {
@@ -356,7 +360,17 @@ func (e *Env) sentinelProvenance() {
 						continue
 					}
 					switch q := call.Call.StaticCallee().String(); q {
-					case "errors.New", "fmt.Errorf", errsPkg + ".New", errsPkg + ".WithCause", "errors.Join":
+					case "errors.New", "fmt.Errorf":
+						// an error that matches no sentinel is harmless as the *cause* attached to a wrapped sentinel
+						// (errs.Error.Is consults Err and Cause); anywhere else it could be what is returned
+						if !plainError(call) || !onlyUsedAsCause(call) {
+							c.Fail("sentinel-provenance", fn.String()+" calls "+q, e.P.Pos(call.Pos()), "an error built here could match no sentinel, or two of them")
+						}
+					case errsPkg + ".WithCause":
+						if len(call.Call.Args) != 1 || !noSentinelValue(call.Call.Args[0]) {
+							c.Fail("sentinel-provenance", fn.String()+" calls "+q, e.P.Pos(call.Pos()), "the cause attached here is not provably free of sentinels: the error could match two of them")
+						}
+					case errsPkg + ".New", "errors.Join":
 						c.Fail("sentinel-provenance", fn.String()+" calls "+q, e.P.Pos(call.Pos()), "an error built here could match no sentinel, or two of them")
 					}
 				}
@@ -434,15 +448,9 @@ func (e *Env) singleSentinelSeen(bld *ir.Builder, v ssa.Value, depth int, seen m
 			if len(x.Call.Args) == 0 {
 				return false
 			}
-			// options must be WithContext only
-			t := bld.Term(x)
-			if len(t.Args) == 2 && t.Args[1].Op == "list" {
-				for _, o := range t.Args[1].Args {
-					if !isCallOf(o, "github.com/goark/errs.WithContext") {
-						return false
-					}
-				}
-			} else if len(t.Args) == 2 && !(t.Args[1].Op == ir.OConst && t.Args[1].C == nil) {
+			// options: only errs.WithContext(...) and errs.WithCause(<an error free of sentinels>) - any other
+			// ErrorContextFunc could replace the wrapped error. The option list may be assembled step by step.
+			if len(x.Call.Args) > 1 && !wrapOptionsOK(x.Call.Args[1], 0) {
 				return false
 			}
 			a := x.Call.Args[0]
@@ -479,6 +487,10 @@ func (e *Env) constructorFresh(l *facts.Level, rule string) {
 		return
 	}
 	who := fname(ctor)
+	if l.Names == nil {
+		c.Undecided(rule, who+" names", e.P.Pos(ctor.Pos()), l.NamesProblem)
+		return
+	}
 	// a map allocated in the constructor itself (map[K]V{} or make(map[K]V)); ctorFields admits no map updates, so it is empty
 	x := fields[l.Names]
 	okNames := x != nil && x.Op == ir.OAlloc && x.Str == "map"
@@ -534,6 +546,10 @@ func (e *Env) constructorFresh(l *facts.Level, rule string) {
 func (e *Env) namesReaders(v *spec.Version, ls []*facts.Level) {
 	c := e.C
 	for _, l := range ls {
+		if l.Names == nil {
+			c.Undecided("names-readers", l.String(), "", l.NamesProblem)
+			continue
+		}
 		allowed := map[string]bool{}
 		if l.DecodeOne != nil {
 			allowed[l.DecodeOne.Name()] = true
@@ -783,6 +799,9 @@ func (e *Env) boundsRules() {
 		if fn.Pkg == nil || !isMetricPkg(fn.Pkg.Pkg.Path()) || fn.Synthetic != "" {
 			continue
 		}
+		if !e.reachableFromAPI()[fn] {
+			continue // the property speaks of the decoders and the named queries; a new entry point is not one of them
+		}
 		bld := e.builder(fn)
 		for _, b := range fn.Blocks {
 			for _, in := range b.Instrs {
@@ -882,6 +901,9 @@ func (e *Env) noExplicitFailure() {
 	for _, fn := range e.F.Effects().All {
 		if fn.Pkg == nil || !isMetricPkg(fn.Pkg.Pkg.Path()) || fn.Synthetic != "" {
 			continue
+		}
+		if !e.reachableFromAPI()[fn] {
+			continue // e.g. a MustDecode convenience that panics by contract: not a decoder or query of the property
 		}
 		n++
 		for _, b := range fn.Blocks {
@@ -1095,7 +1117,9 @@ func (e *Env) writeOwnership(v *spec.Version, ls []*facts.Level) {
 	}
 	for _, l := range ls {
 		fs := append([]*types.Var{}, l.Metrics...)
-		fs = append(fs, l.Names)
+		if l.Names != nil {
+			fs = append(fs, l.Names)
+		}
 		if l.VerField != nil {
 			fs = append(fs, l.VerField)
 		}
@@ -1183,4 +1207,165 @@ func (e *Env) lowerThroughEmbedding(k *scoreKit) {
 			}
 		}
 	}
+}
+
+// plainError: errors.New(...) or fmt.Errorf with a constant format that has no %w verb: an error value that wraps
+// nothing, hence matches no sentinel.
+func plainError(call *ssa.Call) bool {
+	callee := call.Call.StaticCallee()
+	if callee == nil {
+		return false
+	}
+	switch callee.String() {
+	case "errors.New":
+		return true
+	case "fmt.Errorf":
+		if len(call.Call.Args) == 0 {
+			return false
+		}
+		k, ok := call.Call.Args[0].(*ssa.Const)
+		return ok && k.Value != nil && k.Value.Kind() == constant.String && !strings.Contains(constant.StringVal(k.Value), "%w")
+	}
+	return false
+}
+
+// noSentinelValue: the error value cannot match a cvsserr sentinel: a plain error built in place, or an error
+// returned by the standard library's strconv (possibly through a φ of such values).
+func noSentinelValue(v ssa.Value) bool {
+	switch x := v.(type) {
+	case *ssa.Call:
+		if plainError(x) {
+			return true
+		}
+	case *ssa.Extract:
+		if call, ok := x.Tuple.(*ssa.Call); ok && call.Call.StaticCallee() != nil && call.Call.StaticCallee().Pkg != nil {
+			return call.Call.StaticCallee().Pkg.Pkg.Path() == "strconv"
+		}
+	case *ssa.MakeInterface:
+		return noSentinelValue(x.X)
+	case *ssa.ChangeInterface:
+		return noSentinelValue(x.X)
+	case *ssa.Phi:
+		for _, ed := range x.Edges {
+			if ed == ssa.Value(x) {
+				continue
+			}
+			if _, isPhi := ed.(*ssa.Phi); isPhi || !noSentinelValue(ed) {
+				return false
+			}
+		}
+		return len(x.Edges) > 0
+	}
+	return false
+}
+
+// onlyUsedAsCause: every use of the call's value is as the argument of errs.WithCause.
+func onlyUsedAsCause(call *ssa.Call) bool {
+	refs := call.Referrers()
+	if refs == nil || len(*refs) == 0 {
+		return false
+	}
+	var ok func(v ssa.Value, depth int) bool
+	ok = func(v ssa.Value, depth int) bool {
+		rs := v.Referrers()
+		if rs == nil || depth > 3 {
+			return false
+		}
+		for _, r := range *rs {
+			switch u := r.(type) {
+			case *ssa.DebugRef:
+			case *ssa.Call:
+				callee := u.Call.StaticCallee()
+				if callee == nil || callee.String() != "github.com/goark/errs.WithCause" {
+					return false
+				}
+			case *ssa.MakeInterface:
+				if !ok(u, depth+1) {
+					return false
+				}
+			case *ssa.Phi:
+				if !ok(u, depth+1) {
+					return false
+				}
+			default:
+				return false
+			}
+		}
+		return true
+	}
+	return ok(call, 0)
+}
+
+// wrapOptionsOK: every element that can end up in the option slice v is a call of errs.WithContext or of
+// errs.WithCause with a cause that is free of sentinels.
+func wrapOptionsOK(v ssa.Value, depth int) bool {
+	if depth > 8 {
+		return false
+	}
+	elemOK := func(e ssa.Value) bool {
+		call, ok := e.(*ssa.Call)
+		if !ok || call.Call.StaticCallee() == nil {
+			return false
+		}
+		switch call.Call.StaticCallee().String() {
+		case "github.com/goark/errs.WithContext":
+			return true
+		case "github.com/goark/errs.WithCause":
+			return len(call.Call.Args) == 1 && noSentinelValue(call.Call.Args[0])
+		}
+		return false
+	}
+	switch x := v.(type) {
+	case *ssa.Const:
+		return x.Value == nil
+	case *ssa.Phi:
+		for _, ed := range x.Edges {
+			if ed == ssa.Value(x) {
+				continue
+			}
+			if !wrapOptionsOK(ed, depth+1) {
+				return false
+			}
+		}
+		return true
+	case *ssa.Slice:
+		al, ok := x.X.(*ssa.Alloc)
+		if !ok || al.Referrers() == nil {
+			return false
+		}
+		for _, r := range *al.Referrers() {
+			switch ia := r.(type) {
+			case *ssa.IndexAddr:
+				if ia.Referrers() == nil {
+					return false
+				}
+				for _, rr := range *ia.Referrers() {
+					st, ok := rr.(*ssa.Store)
+					if !ok || st.Addr != ssa.Value(ia) || !elemOK(st.Val) {
+						return false
+					}
+				}
+			case *ssa.Slice, *ssa.DebugRef:
+			default:
+				return false
+			}
+		}
+		return true
+	case *ssa.Call:
+		if bi, ok := x.Call.Value.(*ssa.Builtin); ok && bi.Name() == "append" && len(x.Call.Args) == 2 {
+			return wrapOptionsOK(x.Call.Args[0], depth+1) && wrapOptionsOK(x.Call.Args[1], depth+1)
+		}
+	case *ssa.MakeSlice:
+		// elements must only ever be added through append (no store through an index of this value)
+		if x.Referrers() == nil {
+			return false
+		}
+		for _, r := range *x.Referrers() {
+			if _, isIdx := r.(*ssa.IndexAddr); isIdx {
+				return false
+			}
+		}
+		return true
+	}
+	return false
 }
